@@ -4,7 +4,7 @@ CONSTANTS
   Reqs = {"r1","r2"}
   Gets = {"g1"}
   Cfgs <- CfgPlainSse
-  MaxEmit = 1
+  MaxEmit = 0
   MaxSreq = 1
   MaxSa = 0
   MaxBc = 0
